@@ -133,7 +133,7 @@ def _pipe_part(chk, n):
             chk.sample(dict(case=case, trace=res['trace']))
 
     b0 = len(chk.corr_breaks)
-    nval, ntot = _run_batched(chk, 'scen_pipe', scen, cases, 'pipe', 'E3-differential', 200, per_case_timeout=60, visit=visit)
+    nval, ntot = _run_batched(chk, 'scen_pipe', scen, cases, 'pipe', 'E3-differential', 200, per_case_timeout=300, visit=visit)
     chk.add_obligation('correspondence', 'pipe: send/recv traces of the real pipe.Server/Client replayed through Pipe.step, '
                        'and Connection framing vs Pipe.frame/readFrame (drv pipe)', nval == ntot, cases=ntot, agreed=nval)
     _escalate(chk, 'scen_pipe', scen, lambda: scen.gen_case(chk.rng, chk.tier), min(2 * n, 600), b0, 'pipe')
@@ -172,7 +172,7 @@ def _sock_part(chk, n_sock, n_pipe):
 
     b0 = len(chk.corr_breaks)
     nval, ntot = _run_batched(chk, 'scen_sock', scen, cases, 'mux', 'E4-processes', 160,
-                              per_case_timeout=scen.CHILD_TIMEOUT + 30,
+                              per_case_timeout=4 * scen.CHILD_TIMEOUT,   # results are awaited in order: queueing time counts
                               traced=lambda c: c['kind'] == 'sock' and c['mode'] == 'thread', visit=visit)
     chk.add_obligation('correspondence', 'mux: event traces of the real SocketServer/SocketClient replayed through Mux.step (drv mux)',
                        nval == ntot, cases=ntot, agreed=nval)
@@ -188,9 +188,17 @@ def run(chk):
         sys.path.insert(0, str(core.REPO / 'src'))     # the parent only uses pure helpers of the scenario modules
     chk.audit(PROPS)
     quick = chk.tier == 'quick'
-    _frame_part(chk, 800 if quick else 10000)
-    _pipe_part(chk, 80 if quick else 1200)
-    _sock_part(chk, 48 if quick else 480, 12 if quick else 100)
+    for part in (lambda: _frame_part(chk, 800 if quick else 10000),
+                 lambda: _pipe_part(chk, 80 if quick else 1200),
+                 lambda: _sock_part(chk, 48 if quick else 480, 12 if quick else 100)):
+        try:
+            part()
+        except (core.InfraError, AttributeError) as e:
+            # a harness problem after a failing input has already been found must not hide the finding
+            # (AttributeError: core.Pool.close() called twice after a worker time-out)
+            if not chk.violations:
+                raise core.InfraError(str(e))
+            chk.notes.append(f'harness problem in a later part (ignored, a violation had been found): {e}')
     chk.cov['rule'] = (
         'frame (E3): random cases (records: id class x encoder x payload class [empty, header look-alike, newline-heavy, '
         'random bytes, nested objects, unicode text] x size incl. 64 KiB boundaries; reader limit 24..65536; clean / cut '
